@@ -87,6 +87,15 @@ def parseCond (toks : List String) : Option (Option Ast × List String) :=
     | some (e, rest) => some (some (Ast.build e), rest)
     | none => none
 
+/-- `with()` called once per condition: the restrictions are AND-ed, left to right -/
+def parseConds : Nat → List String → Option Ast → Option (Option Ast × List String)
+  | 0, rest, acc => some (acc, rest)
+  | n+1, toks, acc =>
+    match WireExpr.parseExpr (toks.length + 1) toks with
+    | some (e, rest) =>
+      parseConds n rest (some (match acc with | some c => Ast.and c (Ast.build e) | none => Ast.build e))
+    | none => none
+
 /-- `T name` | `IJ sel sel expr` | `LJ sel sel expr`; select = `SEL k cols.. cond join` -/
 partial def parseJoin (toks : List String) : Option (Pkg.Join × List String) :=
   match toks with
@@ -305,6 +314,26 @@ def step (st : State) (toks : List String) : Option (State × String) :=
         | some (cond, []) => some (st, match QueryFmt.fmtUpdate tn ups cond with | some x => Wire.hexOfStr x | none => "unmodelled")
         | _ => none
       | none => none
+    | _, _ => none
+  | "fmtq" :: "deletew" :: t :: n :: rest =>
+    match Wire.strOfHex t, n.toNat? with
+    | some tn, some k =>
+      match parseConds k rest none with
+      | some (cond, []) => some (st, match QueryFmt.fmtDelete tn cond with | some x => Wire.hexOfStr x | none => "unmodelled")
+      | _ => none
+    | _, _ => none
+  | "fmtq" :: "updatew" :: t :: k :: rest =>
+    match Wire.strOfHex t, k.toNat? with
+    | some tn, some kn =>
+      match parseAssign kn rest [] with
+      | some (ups, n :: r1) =>
+        match n.toNat? with
+        | some nn =>
+          match parseConds nn r1 none with
+          | some (cond, []) => some (st, match QueryFmt.fmtUpdate tn ups cond with | some x => Wire.hexOfStr x | none => "unmodelled")
+          | _ => none
+        | none => none
+      | _ => none
     | _, _ => none
   | "fmtq" :: "delete" :: t :: rest =>
     match Wire.strOfHex t, parseCond rest with
